@@ -443,6 +443,10 @@ func (p *idp) mint(ans *AnsSpec, grant string, lg *login, old *rtRec) (map[strin
 		ts.Nonce, nonceSym = nil, "absent"
 	case "nonceForeign":
 		ts.Nonce, nonceSym = "foreign-"+randMarker(""), "foreign"
+	case "nonceNearMiss":
+		// almost the nonce of this login: other case, a blank around it, a character more or less
+		n := lg.nonce
+		ts.Nonce, nonceSym = pickAny(ans.Variant, swapCase(n), n+" ", " "+n, n[:len(n)-1], n+"x"), "foreign"
 	case "nonceEmpty":
 		ts.Nonce, nonceSym = "", "empty"
 	case "nonceNonString":
@@ -618,6 +622,19 @@ func mangleMinted(cls string, doc map[string]any) []byte {
 		b = append(b, []byte(`}} trailing garbage`)...)
 	}
 	return b
+}
+
+func swapCase(s string) string {
+	b := []byte(s)
+	for i, c := range b {
+		switch {
+		case c >= 'a' && c <= 'z':
+			b[i] = c - 32
+		case c >= 'A' && c <= 'Z':
+			b[i] = c + 32
+		}
+	}
+	return string(b)
 }
 
 func pickAny(i int, opts ...any) any { return opts[((i%len(opts))+len(opts))%len(opts)] }
